@@ -54,7 +54,9 @@ Definition e_unit (_ : unit) : sexp := L [].
    10 Person(first=..,...) of the part texts   11 BibliographyData.lower()
    12 write then read in one format   13 to_file + convert() chain + parse_file
    15 pickle, 16 repr/eval: oracle only (no model)   17 Writer._encode_with_comments
-   18 parse_string(text, 'bibtex') as a database *)
+   18 parse_string(text, 'bibtex') as a database
+   19 write/read (op 0-2) or a chain (op 3, 4) of database A and of B derived from A's Entry objects
+   20 pickle / repr of A and B: oracle only *)
 Definition dispatch (fn : Z) (a : sexp) : sexp :=
   match fn with
   | 1%Z => e_res e_str (quote (d_str (d_nth a 0)))
@@ -71,6 +73,16 @@ Definition dispatch (fn : Z) (a : sexp) : sexp :=
   | 12%Z => e_res e_wdb (do d <- d_wdb (d_nth a 1); write_read latex_enc (d_fmt (d_nth a 0)) d)
   | 13%Z => e_res e_wdb (do d <- d_wdb (d_nth a 2);
                          chain latex_enc (d_list d_fmt (d_nth a 0)) (d_bool (d_nth a 1)) d)
+  | 19%Z => (* shared Entry objects: the same operation on database A and on the database B derived from A's entries *)
+    let op := d_Z (d_nth a 0) in
+    let run := fun (x : sexp) =>
+      e_res e_wdb (do d <- d_wdb x;
+                   match op with
+                   | 3%Z => chain latex_enc [FXml; FBib; FYaml] true d
+                   | 4%Z => chain latex_enc [FYaml; FXml] false d
+                   | _ => write_read latex_enc (d_fmt (A op)) d
+                   end) in
+    L [run (d_nth a 1); run (d_nth a 2)]
   | 17%Z => e_str (encode_with_comments latex_enc (d_str (d_nth a 0)))
   | 18%Z => e_res e_wdb (read_bibtex (d_str (d_nth a 0)))
   | _ => L []
